@@ -451,3 +451,101 @@ FAMILIES = [
            reach=['before-till', 'after-till', 'at-till'],
            bounds='run(till=T) with 2 sleepers x 2 sleeps (thorough: plus an interval ticker)'),
 ]
+
+
+def fam_inner_scope(E, kinds=(MOMENT, AFTER, DELAY), real=False):
+    """until(n) around a plain Scope opened by the same activity: n may fire while the activity
+    is inside the inner body, while it waits in the inner scope's exit for an unfinished child
+    (graceful shutdown), between the blocks, or in the rest of the outer body"""
+    k1 = kinds[E.pick('k1', len(kinds))]
+    u1 = E.num('u1', 0, 30, real=real)
+    e = E.num('e', 0, 30, real=real)
+    b = E.num('b', 0, 30, real=real)      # inner body
+    d = E.num('d', 0, 30, real=real)      # child of the inner scope
+    b2 = E.num('b2', 0, 30, real=real)    # rest of the outer body
+    w = E.num('w', 0, 30, real=real)
+    volatile = E.flag('volatile')         # a second, volatile child of the inner scope
+    log = Log()
+
+    async def child(name, delay):
+        try:
+            await (time + delay)
+            log(name, 'end')
+        finally:
+            log(name, 'left')
+
+    async def owner():
+        await at_cp(e, 0)
+        n1 = (time + u1) if k1 == DELAY else ((time == u1) if k1 == MOMENT else (time >= u1))
+        try:
+            async with until(n1):
+                try:
+                    async with Scope() as inner:
+                        inner.do(child('c', d))
+                        if volatile:
+                            inner.do(child('v', 100), volatile=True)
+                        await (time + b)
+                        log('own', 'inner-body-end')
+                finally:
+                    log('own', 'inner-exit')
+                log('own', 'between')
+                await (time + b2)
+                log('own', 'outer-body-end')
+            log('own', 'outer-exit', None)
+        except BaseException as exc:     # noqa
+            log('own', 'outer-exit', exc)
+            return
+        await (time + w)
+        log('own', 'after')
+
+    out = simulate(owner(), log=log)
+    bad = classify_run_exception(out.exc, allowed=())
+    E.prove(bad is None, 'run-ends-normally', bad)
+    if out.exc is not None:
+        return
+    ie, oe = log.first('own', 'inner-exit'), log.first('own', 'outer-exit')
+    if not E.prove(ie is not None and oe is not None, 'blocks-left'):
+        return
+    E.prove(oe[3] is None, 'until-block-never-raises', ('%r', oe[3]))
+    t1 = trigger_model(k1, e, u1, None)
+    Ti = e + MAX(b, d)                    # the inner scope waits for its non-volatile child
+    done = Ti + b2
+    want_o = done if t1 is NEVER else MIN(t1, done)
+    want_i = Ti if t1 is NEVER else MIN(t1, Ti)
+    E.prove(EQ(ie[2], want_i), 'inner-scope-left-at-min(trigger,completion)',
+            ('inner left at %r, expected %r', ie[2], want_i))
+    E.prove(EQ(oe[2], want_o), 'block-ends-at-min(trigger,completion)',
+            ('until block left at %r, expected %r', oe[2], want_o))
+    if t1 is not NEVER and LT(t1, done):
+        E.prove(not log.has('own', 'outer-body-end'), 'body-abandoned-when-notification-fires')
+        if LT(t1, Ti):
+            E.prove(not log.has('own', 'between'), 'body-abandoned-when-notification-fires',
+                    'code between the blocks ran although the notification fired first')
+            if GT(t1, e + b) and LT(e + b, e + d):
+                E.reach('fires-while-inner-scope-waits-for-its-child')
+    # children of the inner scope never outlive it, whatever ended it
+    for name in ('c', 'v'):
+        left = log.first(name, 'left')
+        if left is not None:
+            E.prove(LE(left[2], ie[2]), 'inner-children-closed-with-the-block',
+                    ('%s left at %r, inner scope at %r', name, left[2], ie[2]))
+    if volatile:
+        # (a volatile child closed before its first turn runs no code at all)
+        E.prove(not log.has('v', 'end'), 'volatile-child-closed')
+    # nothing of the block runs after it ended
+    pos = log.pos(oe)
+    late = [x for x in log.events[pos + 1:] if x[1] in ('inner-body-end', 'between',
+                                                         'outer-body-end', 'end', 'left')]
+    E.prove(not late, 'nothing-of-the-block-runs-afterwards', ('%r', [x[:2] for x in late]))
+    af = log.first('own', 'after')
+    if E.prove(af is not None, 'activity-continues-after-block'):
+        E.prove(EQ(af[2], oe[2] + w), 'later-wait-unaffected-by-notification')
+
+
+FAMILIES.append(
+    Family('inner_scope', fam_inner_scope,
+           quick=dict(kinds=(MOMENT, DELAY)),
+           thorough=dict(kinds=(MOMENT, AFTER, DELAY), real=True),
+           reach=['fires-while-inner-scope-waits-for-its-child'],
+           bounds='until(n) around a plain Scope of the same activity with a child (and '
+                  'optionally a volatile child); n of kinds ==, + (thorough: >=, rational dates)'))
